@@ -23,18 +23,39 @@ def to_strings(case):
     }
 
 
-def to_text(case, extra=""):
+def to_text(case, extra="", style="ssc"):
+    """style: 'ssc' | 'sm' (an SM simfile carrying the same keys) | 'sm-freezes' (its stops spelled #FREEZES)."""
     s = to_strings(case)
-    return ("#VERSION:0.83;\n#OFFSET:%(OFFSET)s;\n#BPMS:%(BPMS)s;\n#STOPS:%(STOPS)s;\n#DELAYS:%(DELAYS)s;\n#WARPS:%(WARPS)s;\n" % s) + extra
+    s["V"] = "#VERSION:0.83;\n" if style == "ssc" else "#TITLE:t;\n"
+    s["STOPKEY"] = "FREEZES" if style == "sm-freezes" else "STOPS"
+    return ("%(V)s#OFFSET:%(OFFSET)s;\n#BPMS:%(BPMS)s;\n#%(STOPKEY)s:%(STOPS)s;\n#DELAYS:%(DELAYS)s;\n#WARPS:%(WARPS)s;\n" % s) + extra
 
 
-def build_engine(case):
+STYLES = ("ssc", "ssc", "sm", "sm-freezes")
+
+
+def style_of(case):
+    from ..core import digest64
+
+    return STYLES[digest64(case) % 4]
+
+
+def build_timing_data(case, style=None):
+    """TimingData read the real way from a simfile text: SSC, SM, or SM with the legacy FREEZES spelling of STOPS."""
+    from simfile.sm import SMSimfile
     from simfile.ssc import SSCSimfile
     from simfile.timing import TimingData
+
+    style = style or style_of(case)
+    text = to_text(case, style=style)
+    sf = SSCSimfile(string=text) if style == "ssc" else SMSimfile(string=text)
+    return TimingData(sf)
+
+
+def build_engine(case, style=None):
     from simfile.timing.engine import TimingEngine
 
-    sf = SSCSimfile(string=to_text(case))
-    return TimingEngine(TimingData(sf))
+    return TimingEngine(build_timing_data(case, style))
 
 
 def build_timeline(case):
@@ -112,9 +133,12 @@ def random_case(rng, max_events=40, span_beats=400):
     step = rng.choice([1, 4, 12, 24, 48])
     hot = sorted({rng.randrange(0, span, step) for _ in range(max(2, n // 2))} | ({0} if rng.random() < 0.4 else set()))
     c = {"bpms": {}, "stops": {}, "delays": {}, "warps": {}}
-    bpm_style = rng.choice(["mid", "mid", "low", "high", "wide"])
+    bpm_style = rng.choice(["mid", "mid", "low", "high", "wide", "nice"])
 
     def bpm():
+        if bpm_style == "nice":  # 60/BPM is a finite decimal: event times can be hit exactly by an offset
+            return rng.choice(["60", "120", "150", "240", "30", "200", "100", "75", "300", "96", "125", "160", "250", "48", "80",
+                               "192", "128", "64", "60.000", "120.000"])
         if bpm_style == "mid":
             return rdec(rng, 60, 300)
         if bpm_style == "low":
@@ -141,12 +165,63 @@ def random_case(rng, max_events=40, span_beats=400):
             if later and rng.random() < 0.5:
                 l = max(1, rng.choice(later) - k + rng.choice([0, 0, -1, 1, step]))
             c["warps"][k] = l
+    # events of different kinds on ADJACENT ticks (k and k+-1): neither the same beat nor a comfortable gap
+    for _ in range(rng.choice([0, 0, 1, 2, 3])):
+        have = [k for key in ("bpms", "stops", "delays", "warps") for k in c[key]]
+        k = max(0, rng.choice(have) + rng.choice([-1, 1, 1]))
+        kind = rng.choice(["bpm", "stop", "delay", "warp", "warp", "stop"])
+        if kind == "bpm":
+            if k:
+                c["bpms"].setdefault(k, bpm())
+        elif kind == "warp":
+            c["warps"].setdefault(k, rng.choice([1, 2, 12, 48, 96]))
+        else:
+            c[kind + "s"].setdefault(k, rdec(rng, 0.001, rng.choice([0.1, 1, 10])))
+    # equal VALUES across kinds: a pause as long (in seconds) as a neighbouring BPM value, a BPM repeated by a
+    # later change after something else happened in between
+    if rng.random() < 0.3:
+        pauses = [(key, k) for key in ("stops", "delays") for k in c[key]]
+        if pauses:
+            key, k = rng.choice(pauses)
+            later = sorted(b for b in c["bpms"] if b > k)
+            if not later or rng.random() < 0.3:
+                nb = k + rng.choice([1, 12, 48, 192])
+                c["bpms"][nb] = bpm()
+                later = sorted(b for b in c["bpms"] if b > k)
+            if rng.random() < 0.6:
+                c[key][k] = c["bpms"][later[0]]  # the pause lasts as many seconds as the next BPM's value
+            else:
+                prev = max(b for b in c["bpms"] if b <= k)
+                c[key][k] = c["bpms"][prev]  # ... as the BPM in force
+                if rng.random() < 0.5:
+                    c["bpms"][later[0]] = c["bpms"][prev]  # and the next change repeats the BPM in force
     off = rng.choice(["0", "0", rdec(rng, 0.001, 3), "-" + rdec(rng, 0.001, 100), rdec(rng, 0.001, 100)])
-    return {"bpms": [[k, v] for k, v in sorted(c["bpms"].items())],
+    case = {"bpms": [[k, v] for k, v in sorted(c["bpms"].items())],
             "stops": [[k, v] for k, v in sorted(c["stops"].items())],
             "delays": [[k, v] for k, v in sorted(c["delays"].items())],
             "warps": [[k, v] for k, v in sorted(c["warps"].items())],
             "offset": off}
+    if rng.random() < (0.6 if bpm_style == "nice" else 0.1):
+        # a positive offset under which some event boundary (start or end of a pause, a BPM change, a warp end) falls
+        # on song time exactly 0 -- when that time is a finite decimal
+        tl = build_timeline(dict(case, offset="0"))
+        cands = [(Fraction(k, 48), 6) for k, _ in case["stops"]] + [(Fraction(k, 48), 4) for k, _ in case["delays"]]
+        cands += [(Fraction(k, 48), 2) for k, _ in case["bpms"][1:]] + [(b, 1) for _, b in tl.U]
+        cands += [(Fraction(k, 48), 5) for k, _ in case["stops"]]
+        rng.shuffle(cands)
+        for b, tag in cands:
+            t = tl.time(b, tag)
+            d = t.denominator
+            while d % 2 == 0:
+                d //= 2
+            while d % 5 == 0:
+                d //= 5
+            if d == 1 and 0 < t < 10000:
+                dec = Decimal(t.numerator) / Decimal(t.denominator)
+                if Fraction(dec) == t and len(str(dec)) <= 18:
+                    case["offset"] = str(dec)
+                    break
+    return case
 
 
 def corpus_cases():
@@ -216,4 +291,26 @@ def event_features(case):
                 f.add("bpm_change_inside_warp")
     if 0 in sb or 0 in db:
         f.add("pause_at_beat_0")
+    kinds = {}
+    for key in ("bpms", "stops", "delays", "warps"):
+        for k, _ in case[key]:
+            kinds.setdefault(k, set()).add(key)
+    for k, ks in kinds.items():
+        if any(kinds.get(k + 1, set()) - ks for _ in (0,)):
+            f.add("different_kinds_on_adjacent_ticks")
+        if "stops" in ks and "warps" in kinds.get(k + 1, ()):
+            f.add("warp_one_tick_after_a_stop")
+    bv = {Decimal(v) for _, v in case["bpms"]}
+    if any(Decimal(v) in bv for key in ("stops", "delays") for _, v in case[key]):
+        f.add("pause_seconds_equal_a_bpm_value")
+    off = Fraction(Decimal(case["offset"]))
+    if off > 0:
+        t0 = dict(case, offset="0")
+        tl0 = build_timeline(t0)
+        for (b, _v) in tl.stops:
+            if tl0.time(b, 6) == off or tl0.time(b, 5) == off:
+                f.add("pause_boundary_at_time_zero")
+        for (b, _v) in tl.delays:
+            if tl0.time(b, 4) == off or tl0.time(b, 3) == off:
+                f.add("pause_boundary_at_time_zero")
     return f
